@@ -16,8 +16,8 @@ CONSTANTS N, Depth, Sim
 VARIABLES hp, pool, hist, variant
 vars == <<hp, pool, hist, variant>>
 
-\* characters: NUL a A z 0 space DEL | e-acute E-acute sharp-s n-apostrophe j-caron lambda Lambda | euro CJK fi-ligature U+FFFF | emoji U+10FFFF
-CharPalette == <<0, 97, 65, 122, 48, 32, 127, 233, 201, 223, 329, 496, 955, 923, 8364, 20013, 64257, 65535, 128512, 1114111>>
+\* characters: NUL a A z 0 space _ DEL | multiplication-sign e-acute E-acute sharp-s n-apostrophe j-caron lambda Lambda | euro CJK fi-ligature U+FFFF | emoji U+10FFFF
+CharPalette == <<0, 97, 65, 122, 48, 32, 95, 127, 215, 233, 201, 223, 329, 496, 955, 923, 8364, 20013, 64257, 65535, 128512, 1114111>>
 \* integers for integer->char: around the surrogate gap, the upper end, negative
 IntPalette == <<-1, 0, 65, 55295, 55296, 57343, 57344, 1114111, 1114112>>
 
